@@ -349,6 +349,8 @@ def render_machine(prog, base_name=None):
                 line = line.replace(f".to({t['dst']},", f".to({base_name}.{t['dst']},", 1)
             body.append(line)
     for a in prog.get("any", []):
+        if a.get("inherited"):
+            continue
         # ``ev = target.from_.any(...)``: one transition from every non-final state (declared after the
         # states and the explicit transitions); an ``event=`` argument there names nothing
         kw = []
